@@ -18,6 +18,7 @@ import (
 	"strconv"
 	"strings"
 	"sync"
+	"syscall"
 	"time"
 
 	"github.com/markusressel/fan2go/internal"
@@ -83,6 +84,7 @@ type raceSide struct {
 	Frames []raceFrame `json:"frames"`
 	Kind   string      `json:"kind"`
 	Site   *raceFrame  `json:"site"` // first frame inside /repo/internal
+	Sites  []raceFrame `json:"-"`    // every frame inside /repo/internal, innermost first (logging helpers come first)
 }
 
 type raceReport struct {
@@ -123,11 +125,13 @@ func init() {
 
 // ------------------------------------------------------------------ names
 var raceClosureRe = regexp.MustCompile(`\$(\d+)`)
+var raceWrapRe = regexp.MustCompile(`\.(deferwrap|gowrap)\d+$`)
 
 // raceCanon: canonical function name shared by SSA names ("(*pkg.T).M", "pkg.F$1") and runtime names
 // ("pkg.(*T).M", "pkg.F.func1").
 func raceCanon(s string) string {
 	s = strings.TrimSuffix(s, "()")
+	s = raceWrapRe.ReplaceAllString(s, "") // compiler wrappers of `defer x.f()` / `go x.f()` belong to the enclosing function
 	first := true
 	s = raceClosureRe.ReplaceAllStringFunc(s, func(m string) string {
 		if first {
@@ -297,28 +301,41 @@ func raceParent(ctx *Ctx) {
 			unmapped = append(unmapped, *rep)
 			continue
 		}
-		ea := byKindFunc[a.Kind+"|"+raceCanon(a.Site.Func)]
-		eb := byKindFunc[b.Kind+"|"+raceCanon(b.Site.Func)]
+		// the access may sit in a caller of the innermost module frame (ui.Warning formatting its arguments, a
+		// reflective copy started further up): try the module frames of both stacks, innermost first
 		best := -1
 		bestLocs := map[string]bool{}
-		for _, x := range ea {
-			for _, y := range eb {
-				if x.Loc != y.Loc || !raceModeConflict(x.Mode, y.Mode) {
+		var siteA, siteB *raceFrame
+		for depth := 0; depth < len(a.Sites)+len(b.Sites)-1 && best < 0; depth++ {
+			for ia := 0; ia <= depth && ia < len(a.Sites); ia++ {
+				ib := depth - ia
+				if ib >= len(b.Sites) {
 					continue
 				}
-				score := 0
-				if x.Line == a.Site.Line {
-					score++
-				}
-				if y.Line == b.Site.Line {
-					score++
-				}
-				if score > best {
-					best = score
-					bestLocs = map[string]bool{}
-				}
-				if score == best {
-					bestLocs[x.Loc] = true
+				fa, fb := &a.Sites[ia], &b.Sites[ib]
+				ea := byKindFunc[a.Kind+"|"+raceCanon(fa.Func)]
+				eb := byKindFunc[b.Kind+"|"+raceCanon(fb.Func)]
+				for _, x := range ea {
+					for _, y := range eb {
+						if x.Loc != y.Loc || !raceModeConflict(x.Mode, y.Mode) {
+							continue
+						}
+						score := 0
+						if x.Line == fa.Line {
+							score++
+						}
+						if y.Line == fb.Line {
+							score++
+						}
+						if score > best {
+							best = score
+							bestLocs = map[string]bool{}
+							siteA, siteB = fa, fb
+						}
+						if score == best && siteA == fa && siteB == fb {
+							bestLocs[x.Loc] = true
+						}
+					}
 				}
 			}
 		}
@@ -330,7 +347,7 @@ func raceParent(ctx *Ctx) {
 			k := mkKey(loc, a.Kind, b.Kind)
 			dyn[k]++
 			if sample[k] == "" {
-				sample[k] = a.Op + " " + raceFrameStr(a.Site) + " / " + b.Op + " " + raceFrameStr(b.Site)
+				sample[k] = a.Op + " " + raceFrameStr(siteA) + " / " + b.Op + " " + raceFrameStr(siteB)
 			}
 		}
 	}
@@ -469,9 +486,12 @@ func raceClassify(s *raceSide, rootKind map[string]string) {
 	const mod = "github.com/markusressel/fan2go/internal"
 	for i := range s.Frames {
 		f := &s.Frames[i]
-		if s.Site == nil && strings.HasPrefix(f.Func, mod) && strings.Contains(f.File, "/internal/") &&
+		if strings.HasPrefix(f.Func, mod) && strings.Contains(f.File, "/internal/") &&
 			!strings.Contains(filepath.Base(f.File), "verif_") {
-			s.Site = f
+			if s.Site == nil {
+				s.Site = f
+			}
+			s.Sites = append(s.Sites, *f)
 		}
 	}
 	// bottom-up: the outermost marker decides
@@ -578,8 +598,15 @@ func raceSensorMon(ctx context.Context, wg *sync.WaitGroup, s sensors.Sensor) {
 
 func raceFanRun(ctx context.Context, wg *sync.WaitGroup, c controller.FanController) {
 	defer wg.Done()
-	defer func() { _ = recover() }()
-	_ = c.Run(ctx)
+	// a controller whose control loop ends (failed curve evaluation / fan read -> restore) is started again, like
+	// the service manager restarting the daemon: prelude, then fresh RPM-monitor and control-loop actors
+	for ctx.Err() == nil {
+		func() {
+			defer func() { _ = recover() }()
+			_ = c.Run(ctx)
+		}()
+		time.Sleep(time.Millisecond)
+	}
 }
 
 func raceApi(ctx context.Context, wg *sync.WaitGroup, h http.Handler, paths []string, rng *Rng) {
@@ -617,6 +644,34 @@ func raceChild(ctx *Ctx) {
 	ms := ctx.Param("ms", 2500)
 	rng := NewRng(ctx.Seed, "race")
 	util.VerifSleepNum, util.VerifSleepDen = 1, 400
+	// transient device faults: every error / warning path of the concurrent activities runs too (failed sensor
+	// reads seen by PID curves and monitors, failed pwm / rpm reads, failed pwm writes).  The decision is a pure
+	// function of the path and the clock: no shared state, no lock - a lock here would order the goroutines and
+	// hide races.  Rates: sensors ~3%, rpm ~4%, pwm reads ~2%, pwm writes ~2% of the 16 microsecond time slots.
+	raceFaultEvery := func(path string) int64 {
+		base := filepath.Base(path)
+		switch {
+		case strings.HasPrefix(base, "temp"):
+			return 32
+		case strings.HasSuffix(base, "_rpm"):
+			return 24
+		case strings.HasSuffix(base, "_pwm"):
+			return 48
+		}
+		return 0
+	}
+	util.VerifReadHook = func(path string) ([]byte, error, bool) {
+		if n := raceFaultEvery(path); n > 0 && (time.Now().UnixNano()>>14)%n == 0 {
+			return nil, syscall.EIO, true
+		}
+		return nil, nil, false
+	}
+	util.VerifWriteHook = func(path string, data []byte) (error, bool) {
+		if n := raceFaultEvery(path); n > 0 && strings.HasSuffix(path, "_pwm") && (time.Now().UnixNano()>>14)%n == 1 {
+			return syscall.EIO, true
+		}
+		return nil, false
+	}
 	cfg := &configuration.CurrentConfig
 	cfg.DbPath = filepath.Join(dir, "fan2go.db")
 	cfg.RunFanInitializationInParallel = rng.Bool()
